@@ -1,8 +1,11 @@
 package buffer
 
 import (
+	"errors"
 	"io"
 )
+
+func vErrIsExceeded(err error) bool { return errors.Is(err, ErrMessageSizeExceeded) }
 
 // ---------------------------------------------------------------------------
 // H03b — message field accessors (C03, accessor clause; also C04 no-panic)
@@ -99,6 +102,7 @@ type vStream struct {
 	reads  int
 	failAt int // <0: never
 	short  bool
+	maxReq int
 }
 
 var errVerifIO = io.ErrClosedPipe
@@ -109,6 +113,9 @@ func (s *vStream) Read(p []byte) (int, error) {
 		return 0, errVerifIO
 	}
 	avail := len(s.data) - s.pos
+	if len(p) > s.maxReq {
+		s.maxReq = len(p)
+	}
 	if len(p) == 0 {
 		return 0, nil
 	}
@@ -220,5 +227,129 @@ func VerifH10d() {
 	} else {
 		vAssert("configured-limit", rd.MaxMessageSize == b)
 		vReach("configured")
+	}
+}
+
+// ---------------------------------------------------------------------------
+// H10a — the limit arithmetic over the full range (C10). L is any value in
+// 1..2^31-1 and the declared length any 32-bit value: one solver query per
+// assertion, no enumeration. Size-exceeded is reported iff declared-4 > L or
+// declared < 4; on that path nothing beyond the 4 header bytes was read and
+// nothing was allocated, and the error carries (size, L); otherwise
+// (continued under declared-4 <= N) the body is read in full.
+// ---------------------------------------------------------------------------
+func VerifH10a() {
+	N := vParam("N", 3)
+	L := nondetInt()
+	vAssume(vAnd(L >= 1, L <= 1<<31-1))
+	hdr := nondetBytes(4)
+	body := nondetBytes(N)
+	data := make([]byte, 0, 4+N)
+	data = append(data, hdr...)
+	data = append(data, body...)
+	st := &vStream{data: data, failAt: -1}
+	rd := &Reader{Buffer: st, MaxMessageSize: L}
+	n, err := rd.ReadUntypedMsg()
+
+	declared := uint32(hdr[0])<<24 | uint32(hdr[1])<<16 | uint32(hdr[2])<<8 | uint32(hdr[3])
+	size := int(declared) - 4
+	if vOr(size > L, declared < 4) {
+		vAssert("exceeded-is-error", err != nil)
+		ex, is := UnwrapMessageSizeExceeded(err)
+		vAssert("exceeded-kind", is)
+		vAssert("exceeded-carries-size", ex.Size == size)
+		vAssert("exceeded-carries-limit", ex.Max == L)
+		vAssert("exceeded-header-only", st.pos == 4)
+		vAssert("exceeded-no-buffer", cap(rd.Msg) == 0)
+		vAssert("exceeded-matches-sentinel", vErrIsExceeded(err))
+		if declared < 4 {
+			vReach("below-minimum")
+		} else {
+			vReach("above-limit")
+		}
+		return
+	}
+	vAssume(size <= N)
+	vAssert("in-range-ok", err == nil)
+	vAssert("in-range-n", n == 4+size)
+	vAssert("in-range-len", len(rd.Msg) == size)
+	vAssert("in-range-body", vEqBytes(rd.Msg, body[:size]))
+	vAssert("in-range-consumed", st.pos == 4+size)
+	if size == L {
+		vReach("exactly-at-limit")
+	}
+}
+
+// ---------------------------------------------------------------------------
+// H10b — skipping (C10): Slurp(size) consumes exactly size bytes in chunks
+// of at most L, for every L in 1..LMAX, every size in 0..3L+2 and every
+// segmentation; a stream that ends early is an error.
+// ---------------------------------------------------------------------------
+func VerifH10b() {
+	LMAX := vParam("LMAX", 3)
+	L := 1 + vChoose(LMAX)
+	size := vChoose(3*L + 3)
+	avail := vChoose(3*LMAX + 4)
+	data := nondetBytes(avail)
+	st := &vStream{data: data, failAt: -1, short: true}
+	rd := &Reader{Buffer: st, MaxMessageSize: L}
+	err := rd.Slurp(size)
+	if avail >= size {
+		vAssert("slurp-ok", err == nil)
+		vAssert("slurp-consumes-exactly", st.pos == size)
+		if size > 2*L {
+			vReach("multi-chunk")
+		}
+	} else {
+		vAssert("slurp-short-is-error", err != nil)
+		vReach("short-stream")
+	}
+	vAssert("slurp-chunks-within-limit", st.maxReq <= L)
+}
+
+// ---------------------------------------------------------------------------
+// H18a — one inductive step on the message window (C18), over the full
+// range: for an arbitrary current window (any offset, length, capacity up to
+// 2^31) and any requested size, after reset the new window either lies in
+// the same array entirely behind the old window and inside the old capacity,
+// or it is a fresh array of len=size, cap=max(size,4096). Bytes exposed
+// through the old window are therefore never inside a later window.
+// ---------------------------------------------------------------------------
+func VerifH18a() {
+	off := nondetInt()
+	l := nondetInt()
+	c := nondetInt()
+	size := nondetInt()
+	const M = 1 << 31
+	vAssume(vAnd(vAnd(off >= 0, off <= M), vAnd(l >= 0, l <= c)))
+	vAssume(vAnd(c <= M, vAnd(size >= 0, size <= M)))
+	isNil := nondetBool()
+	rd := &Reader{MaxMessageSize: M}
+	var old []byte
+	if !isNil {
+		arr := make([]byte, off+c)
+		old = arr[off : off+l : off+c]
+		rd.Msg = old
+	}
+	rd.reset(size)
+	nw := rd.Msg
+	vAssert("len-is-size", len(nw) == size)
+	if vSameObject(old, nw) {
+		d := vDelta(old, nw)
+		vAssert("reuse-starts-behind-old-window", d >= len(old))
+		vAssert("reuse-stays-inside-old-capacity", d+cap(nw) <= cap(old))
+		if size > 0 {
+			vReach("reused")
+		}
+	} else {
+		// fresh allocation (or the nil/zero-size corner where nothing is exposed)
+		if size > 0 {
+			want := size
+			if want < 4096 {
+				want = 4096
+			}
+			vAssert("fresh-cap", cap(nw) == want)
+			vReach("fresh")
+		}
 	}
 }
